@@ -256,6 +256,10 @@ class BallDevice(SystemWideDevice):
         """Wait until this device is ready to receive a ball."""
         return self.ball_count_handler.wait_for_ready_to_receive(source)
 
+    def release_reserved_slot(self):
+        """Release the slot which has been reserved for a source in wait_for_ready_to_receive."""
+        self.ball_count_handler.release_reserved_slot()
+
     @property
     def requested_balls(self):
         """Return the number of requested balls."""
